@@ -531,4 +531,54 @@ theorem parseProgram_fmt (m : PModel) (h : WFp m) : parseProgram (progToks m) = 
     rw [hsk, firstC hcs _ (decl_stops ks ds)]
     exact parse_decls ks ds hks hds kind obj (c :: cs)
 
+/-! ### comparison chains -/
+
+theorem expAt_cmp (c : Cmp) (r : List Tok) : expAt (cmpTok c :: r) = .error .reject := by
+  have hf : parseFuel (cmpTok c :: r) = (6 * r.length + 13) + 3 := by simp [parseFuel]; omega
+  have hu : optUnary (cmpTok c :: r) = ([], cmpTok c :: r) := by cases c <;> simp [optUnary, unRule, ruleOfTok, Tok.opSpelling, cmpTok]
+  have hl : leaf (6 * r.length + 13 + 1) (cmpTok c :: r) = .error .reject := by cases c <;> simp [leaf, cmpTok]
+  simp only [expAt, hf, parseExp, collect, hu, hl]
+
+/-- **A comparison chain is not a constraint**: `a <= b <= c` (any comparisons) makes the program invalid. -/
+theorem comparison_chain_rejected {a b c : PExp} (ha : WF a) (hb : WF b) (hc : WF c) (c1 c2 : Cmp) :
+    parseProgram (.word "solve" :: .nl :: .st :: .nl ::
+      (fmtToks a ++ cmpTok c1 :: (fmtToks b ++ cmpTok c2 :: (fmtToks c ++ [.nl])))) = .error .reject := by
+  have hcolon : cmpTok c1 ≠ .colon := by cases c1 <;> simp [cmpTok]
+  have hname := constraintName_none (x := cmpTok c1) (tail := fmtToks b ++ cmpTok c2 :: (fmtToks c ++ [.nl]))
+    (fmtToks_cons a ha) (fmtToks_expr a) hcolon
+  have hfirst : parseConstraint (fmtToks a ++ cmpTok c1 :: (fmtToks b ++ cmpTok c2 :: (fmtToks c ++ [.nl]))) =
+      .ok ({ name := none, lhs := a, cmp := c1, rhs := b, logic := false, iterVars := [], iters := [] },
+           cmpTok c2 :: (fmtToks c ++ [.nl])) := by
+    unfold parseConstraint
+    rw [hname]
+    unfold constraintBody
+    rw [expAt_fmt ha (closed_of_term (cmpTok_term c1) _)]
+    simp only [cmpOfTok_cmpTok]
+    rw [expAt_fmt hb (closed_of_term (cmpTok_term c2) _)]
+  have hsecond : parseConstraint (cmpTok c2 :: (fmtToks c ++ [.nl])) = .error .reject := by
+    have hn : constraintName (cmpTok c2 :: (fmtToks c ++ [.nl])) = (none, cmpTok c2 :: (fmtToks c ++ [.nl])) := by
+      cases c2 <;> rfl
+    unfold parseConstraint
+    rw [hn]
+    unfold constraintBody
+    rw [expAt_cmp]
+  have hsk1 : skipNl (fmtToks a ++ cmpTok c1 :: (fmtToks b ++ cmpTok c2 :: (fmtToks c ++ [.nl]))) = _ := skipNl_fmt ha _
+  have hsk2 : skipNl (cmpTok c2 :: (fmtToks c ++ [.nl])) = cmpTok c2 :: (fmtToks c ++ [.nl]) := by cases c2 <;> rfl
+  have hneed : needNl (cmpTok c2 :: (fmtToks c ++ [.nl])) = none := by cases c2 <;> rfl
+  have hlen : ∃ k, (fmtToks a ++ cmpTok c1 :: (fmtToks b ++ cmpTok c2 :: (fmtToks c ++ [.nl]))).length + 1 = k + 2 :=
+    ⟨(fmtToks a).length + ((fmtToks b).length + ((fmtToks c).length + 1) + 1), by simp; omega⟩
+  obtain ⟨k, hk⟩ := hlen
+  have hw : ("solve" == "min") = false := by decide
+  have hw2 : ("solve" == "max") = false := by decide
+  have hcs : parseConstraints (k + 2) (fmtToks a ++ cmpTok c1 :: (fmtToks b ++ cmpTok c2 :: (fmtToks c ++ [.nl]))) [] =
+      .ok ([{ name := none, lhs := a, cmp := c1, rhs := b, logic := false, iterVars := [], iters := [] }],
+           cmpTok c2 :: (fmtToks c ++ [.nl])) := by
+    simp only [parseConstraints, hsk1, hfirst, hsk2, hsecond]
+    simp
+  have hdecl : ∀ kind obj cs, parseDecls (cmpTok c2 :: (fmtToks c ++ [.nl])) kind obj cs = .error .reject := by
+    intro kind obj cs
+    simp only [parseDecls, parseDefineEnd, hneed, hsk2]
+  unfold parseProgram
+  simp only [skipNl, parseObjective, needNl, hsk1, hw, hw2, Bool.false_eq_true, if_false, beq_self_eq_true, if_true, hk, hcs, hdecl]
+
 end Rooc.Syntax.Proofs
